@@ -32,7 +32,7 @@ class Hole(Observable):
 def rows():
     out = []
     for n, r in sorted(catalog.ROWS.items()):
-        if "stateful" in r.tags or n.startswith("rx.") or r.arity not in (1, 2, -1):
+        if "stateful" in r.tags or "explicit_subject" in r.tags or n.startswith("rx.") or r.arity not in (1, 2, -1):
             continue
         out.append(n)
     return out
